@@ -265,6 +265,8 @@ def check_level0_provenance(ctx):
 
 
 def check(ctx):
+    from . import tablefmt as _tf3
+    _tf3.check_policy_wrapping(ctx)   # filters are built and probed over user keys
     check_every_log_converted(ctx)
     check_table_sequences(ctx)
     check_pipeline(ctx)
